@@ -2,7 +2,7 @@
 (* Exports the schema of the container of TypedTree.tla so that the replay driver builds the real *)
 (* pg.typing value spec / pg.Object class from the very records the specification uses.          *)
 EXTENDS TypedTree, Json, IOUtils
-ASSUME JsonSerialize(IOEnv.OUT_FILE, [kind |-> Kind, spec |-> RootSpec, listkey |-> LKey, lo |-> Lo, hi |-> Hi,
+ASSUME JsonSerialize(IOEnv.OUT_FILE, [kind |-> Kind, spec |-> RootSpec, listkey |-> LKey, lo |-> Lo, hi |-> Hi, accw |-> AccW,
                                       classes |-> << <<12, BSpec>>, <<11, ASpec>> >>,
                                       tspecs |-> [tdict |-> DTS, tlist0 |-> LSpec, tlist1 |-> ListS(ElemS, 0, Hi)]])
 ExpNext == UNCHANGED vars
